@@ -176,3 +176,26 @@ pub(crate) fn pause_point(name: &str) {
         std::thread::sleep(std::time::Duration::from_millis(2));
     }
 }
+
+/// `WILD_VERIF_SM_ADVERSARY=<n>`: an adversarial (but admissible) schedule for the string-merge
+/// spawn loop. After the loop has spawned an input-processing task while no input groups remain,
+/// wait for that task to hand its reservation back before the loop carries on, at most `n` times
+/// per process. This is the interleaving in which the loop's next reservation succeeds again.
+pub(crate) fn sm_adversary(queue_empty: bool, available: &std::sync::atomic::AtomicUsize, nb: usize) {
+    static LIMIT: OnceLock<Option<u64>> = OnceLock::new();
+    static USED: AtomicU64 = AtomicU64::new(0);
+    let Some(limit) =
+        *LIMIT.get_or_init(|| std::env::var("WILD_VERIF_SM_ADVERSARY").ok()?.parse().ok())
+    else {
+        return;
+    };
+    if !queue_empty || USED.fetch_add(1, Ordering::Relaxed) >= limit {
+        return;
+    }
+    let start = std::time::Instant::now();
+    while available.load(Ordering::Relaxed) < nb
+        && start.elapsed() < std::time::Duration::from_millis(200)
+    {
+        std::thread::yield_now();
+    }
+}
